@@ -51,6 +51,7 @@ import (
 	"log"
 	"os"
 	"runtime"
+	"runtime/debug"
 	"slices"
 	"strings"
 	_ "unsafe"
@@ -257,7 +258,11 @@ func visitInstr(fr *frame, instr ssa.Instruction) continuation {
 		panic(targetPanic{fr.get(instr.X)})
 
 	case *ssa.Send:
-		fr.i.path.abort("channel send is not supported")
+		select {
+		case fr.get(instr.Chan).(chan value) <- fr.get(instr.X):
+		default:
+			fr.i.path.abort("channel send would block (in %s)", fr.fn)
+		}
 
 	case *ssa.Store:
 		store(mustDeref(instr.Addr.Type()), fr.get(instr.Addr).(*value), fr.get(instr.Val))
@@ -297,10 +302,19 @@ func visitInstr(fr *frame, instr ssa.Instruction) continuation {
 		}
 
 	case *ssa.Go:
-		fr.i.path.abort("go statement is not supported (in %s)", fr.fn)
+		// Producer/consumer goroutines (a lexer feeding a parser) are run to
+		// completion at the go statement; unbuffered channels are given room
+		// (see MakeChan) so the producer never waits for the consumer. Any
+		// operation that would block for ever aborts the path.
+		fn, args := prepareCall(fr, &instr.Call)
+		call(fr.i, fr, instr.Pos(), fn, args)
 
 	case *ssa.MakeChan:
-		fr.env[instr] = make(chan value, asInt64(fr.get(instr.Size)))
+		sz := asInt64(fr.get(instr.Size))
+		if sz == 0 {
+			sz = 1 << 14
+		}
+		fr.env[instr] = make(chan value, sz)
 
 	case *ssa.Alloc:
 		var addr *value
@@ -464,6 +478,8 @@ func call(i *interpreter, caller *frame, callpos token.Pos, fn value, args []val
 		return callSSA(i, caller, callpos, fn.Fn, args, fn.Env)
 	case *ssa.Builtin:
 		return callBuiltin(caller, fn, args)
+	case boundMethod:
+		return callSSA(i, caller, callpos, fn.fn, append([]value{fn.recv}, args...), nil)
 	}
 	panic(fmt.Sprintf("cannot call %T", fn))
 }
@@ -506,7 +522,11 @@ func callSSA(i *interpreter, caller *frame, callpos token.Pos, fn *ssa.Function,
 		return ext(fr, args)
 	}
 	if fn.Blocks == nil {
-		i.path.abort("no code for function: %s", fn.String())
+		where := ""
+		for k := len(i.path.stack) - 1; k >= 0 && k >= len(i.path.stack)-8; k-- {
+			where += " <- " + i.path.stack[k].String()
+		}
+		i.path.abort("no code for function: %s%s", fn.String(), where)
 	}
 	return callBody(i, caller, fr, fn, args, env)
 }
@@ -528,6 +548,11 @@ func callBody(i *interpreter, caller *frame, fr *frame, fn *ssa.Function, args [
 		i.path.depth--
 		if r := recover(); r != nil {
 			if i.path.panicStack == nil {
+				if os.Getenv("GOSYM_HOSTSTACK") != "" {
+					if _, isRt := r.(runtime.Error); isRt {
+						fmt.Fprintf(os.Stderr, "host panic %v\n%s\n", r, debug.Stack())
+					}
+				}
 				n := len(i.path.stack)
 				for k := n - 1; k >= 0 && k >= n-10; k-- {
 					i.path.panicStack = append(i.path.panicStack, i.path.stack[k].String())
